@@ -26,6 +26,7 @@ def run(prog, chk):
         "MarkToBase/MarkToMark/MarkToLiga bind the matching feaLib statement classes and pass (glyph, marks) in fontTools' parameter order (R06.6)",
         "mark2base skips numbered anchors and anchors without mark class and excludes mark glyphs; mkmk only for mark glyphs; mark2liga only numbered anchors (R06.7)",
         "parseAnchorName: mark-ness is 'starts with the mark prefix', the key has the prefix stripped, numbered mark anchors raise (R06.8)",
+        "no anchor coordinate is dropped or defaulted by a truthiness test: 0 is a legitimate coordinate (R06.9)",
     ]
     chk.not_decided += ["the offsets a shaper computes", "lookup grouping / graph colouring result", "abvm / blwm routing by script", "contextual anchors' generated rules"]
     r061(prog, chk)
@@ -36,6 +37,9 @@ def run(prog, chk):
     r066(prog, chk)
     r067(prog, chk)
     r068(prog, chk)
+    from .rounding import check_no_truthiness_on_coordinates
+    n = check_no_truthiness_on_coordinates(prog, chk, "R06.9", [MARK, "ufo2ft.featureWriters.baseFeatureWriter"])
+    need(n >= 40, "truthiness scan found too few tests")
 
 
 def _coord_source(prog, fi: FuncInfo, e: ast.AST) -> Optional[Tuple[str, str]]:
@@ -432,6 +436,10 @@ def r068(prog, chk):
 
 
 MUTANTS = [
+    M("anchors at x == 0 fall back to the default master", "ufo2ft/featureWriters/baseFeatureWriter.py", "BaseFeatureWriter._getAnchor",
+      "x = anchor.x", "x = anchor.x or 0.0", rule="R06.9"),
+    M("mark anchors on the baseline skipped", "ufo2ft/featureWriters/markFeatureWriter.py", "MarkFeatureWriter._makeMarkClassDefinitions",
+      "mcd = self._defineMarkClass(glyphName, anchor.x, anchor.y, className, currentClasses)", "if not anchor.y:\n    continue\nmcd = self._defineMarkClass(glyphName, anchor.x, anchor.y, className, currentClasses)", rule="R06.9"),
     M("mark class anchor swaps x and y", "ufo2ft/featureWriters/markFeatureWriter.py", "MarkFeatureWriter._defineMarkClass",
       "ast.Anchor(x=otRoundIgnoringVariable(x), y=otRoundIgnoringVariable(y))", "ast.Anchor(x=otRoundIgnoringVariable(y), y=otRoundIgnoringVariable(x))", rule="R06.1"),
     M("base anchors not rounded", "ufo2ft/featureWriters/markFeatureWriter.py", "AbstractMarkPos._marksAsAST",
